@@ -143,6 +143,9 @@ class Cmp:
         nd = len(shape)
         for idx, v in mv.items.items():
             key = idx[0] if (nd == 1 and (idx[0] % 2 == 0)) else idx
+            if self.full and nd > 0 and idx[0] % 3 == 1:
+                key = npkey(idx)
+                key = key[0] if nd == 1 else key
             try:
                 g = got[key]
             except Exception as e:
@@ -319,13 +322,32 @@ def nodes(t, mv, path=(), label="root", through_refs=True):
         yield from nodes(t["m"][mv[0]], mv[1], path, label + f"->{mv[0]}", through_refs)
 
 
+STATS = {}
+_NPI = (None, np.int8, np.uint8, np.int16, None, np.int32, np.int64, np.uint16)
+
+
+def npkey(idx, salt=0):
+    """The same index, sometimes spelled with numpy integers of a narrow type (an index taken from an integer
+    ndarray): deterministic in the index itself, so that replays repeat it."""
+    if any(isinstance(i, (bool, np.bool_)) or not isinstance(i, (int, np.integer)) for i in idx):
+        return idx
+    dt = _NPI[(sum(int(i) for i in idx) * 7 + len(idx) + salt) % len(_NPI)]
+    if dt is None or any(i < 0 for i in idx):
+        return idx
+    ii = np.iinfo(dt)
+    if any(i > ii.max for i in idx):
+        return idx
+    STATS["numpy_integer_indices"] = STATS.get("numpy_integer_indices", 0) + 1
+    return tuple(dt(i) for i in idx)
+
+
 def get_path(root, path):
     o = root
     for st in path:
         if st[0] == "f":
             o = getattr(o, st[1])
         elif st[0] == "i":
-            idx = st[1]
+            idx = npkey(st[1], 1)
             o = o[idx[0] if len(idx) == 1 else idx]
         # ('t',) : already the target
     return o
@@ -338,7 +360,7 @@ def set_path(root, path, value):
     if st[0] == "f":
         setattr(parent, st[1], value)
     else:
-        idx = st[1]
+        idx = npkey(st[1], 2)
         parent[idx[0] if len(idx) == 1 else idx] = value
 
 
